@@ -151,7 +151,8 @@ def make_content(d):
     from testtools.content import Content
     from testtools.content_type import ContentType
     t, s, params = d["ct"]
-    chunks = [bytes(c) for c in d["chunks"]]
+    pool = {}
+    chunks = [pool.setdefault(bytes(c), bytes(c)) for c in d["chunks"]]     # equal chunks are the same object
     return Content(ContentType(t, s, dict((k, v) for k, v in params)), lambda: list(chunks))
 
 
@@ -205,13 +206,21 @@ def nats(l):
     return q.lst([q.nat(x) for x in l])
 
 
+def sstr(x):
+    """a byte string as a Coq term: printable ASCII as a literal (double quote doubled), anything else as hex"""
+    b = x.encode("utf-8") if isinstance(x, str) else bytes(x)
+    if all(32 <= c < 127 for c in b):
+        return '"%s"%%string' % b.decode("ascii").replace('"', '""')
+    return '(hx "%s")' % b.hex()
+
+
 def t_ct(ct):
-    return "(CT %s %s %s)" % (q.string(ct[0]), q.string(ct[1]),
-                              q.lst([q.pair(q.string(k), q.string(v)) for k, v in ct[2]]))
+    return "(CT %s %s %s)" % (sstr(ct[0]), sstr(ct[1]),
+                              q.lst([q.pair(sstr(k), sstr(v)) for k, v in ct[2]]))
 
 
 def t_detail(d):
-    return "(D %s %s %s)" % (q.nat(d["name"]), t_ct(d["ct"]), q.lst([q.string(bytes(c)) for c in d["chunks"]]))
+    return "(D %s %s %s)" % (q.nat(d["name"]), t_ct(d["ct"]), q.lst([sstr(bytes(c)) for c in d["chunks"]]))
 
 
 def t_op(n, op, tbs):
@@ -235,10 +244,10 @@ def t_op(n, op, tbs):
         details = [d for d in (details or []) if d["name"] != 1] + [{"name": 1, "ct": tb["ct"], "chunks": tb["chunks"]}]
     return "(OOutcome %s %s %s %s)" % (
         KINDS[kind], q.nat(i), q.option(details, lambda ds: q.lst([t_detail(d) for d in ds])),
-        q.option(reason, lambda r: q.string(r)))
+        q.option(reason, lambda r: sstr(r)))
 
 
-def t_mev(e):
+def t_mev(e, names):
     if e[0] == "startTestRun":
         return "MStartRun"
     if e[0] == "stopTestRun":
@@ -246,8 +255,8 @@ def t_mev(e):
     _, i, st, tags, fn, fb, eof, mime, route, ts = e
     return "(MStatus (Es %s %s %s %s %s %s %s %s %s))" % (
         q.option(i, q.nat), q.option(route, q.nat), q.option(None if st is None else STATUS[st]),
-        q.option(tags, nats), q.option(fn, q.nat), q.option(fb, lambda b: q.string(bytes(b))),
-        q.boolean(eof), q.option(mime, q.string), q.option(ts, q.nat))
+        q.option(tags, nats), q.option(fn, q.nat), q.option(fb, lambda b: sstr(bytes(b))),
+        q.boolean(eof), q.option(mime, lambda m: names[m]), q.option(ts, q.nat))
 
 
 def t_lev(l):
@@ -265,15 +274,20 @@ def t_lev(l):
     if k == "stopTest":
         return "(LStopTest %s)" % q.nat(l[1])
     if k == "outcome":
-        det = q.lst([q.pair(q.nat(n), q.pair(t_ct(ct), q.string(bytes(b)))) for n, ct, b in l[4]])
+        det = q.lst([q.pair(q.nat(n), q.pair(t_ct(ct), sstr(bytes(b)))) for n, ct, b in l[4]])
         return "(LOutcome %s %s %s %s)" % (KINDS[l[1]], q.nat(l[2]), nats(l[3] if l[3] is not None else [UNKNOWN]), det)
     return "LKeyError"
 
 
 def term(case, o):
     i = q.record([("hist", q.lst([t_op(n, op, o["tb"]) for n, op in enumerate(case["ops"])]))])
-    ob = q.record([("o_mid", q.lst([t_mev(e) for e in o["mid"]])), ("o_fin", q.lst([t_lev(l) for l in o["fin"]]))])
-    return q.pair(i, ob)
+    # the mime strings repeat on every chunk event: bind each once (keeps the shards small)
+    mimes = sorted(set(e[7] for e in o["mid"] if e[0] == "status" and e[7] is not None))
+    names = dict((m, "m%d" % k) for k, m in enumerate(mimes))
+    ob = q.record([("o_mid", q.lst([t_mev(e, names) for e in o["mid"]])),
+                   ("o_fin", q.lst([t_lev(l) for l in o["fin"]]))])
+    lets = "".join("let %s := %s in " % (names[m], sstr(m)) for m in mimes)
+    return "(%s%s)" % (lets, q.pair(i, ob))
 
 
 def perturb(case, o):
@@ -292,14 +306,18 @@ TEXT_TYPES = [
     ["text", "plain", [["charset", "utf-8"], ["format", "flowed; x=1"]]],
     ["text", "x-log", [["charset", "UTF-8"]]],
     ["text", "x-traceback", [["language", "python"], ["charset", "utf8"]]],
+    ["text", "html", [["charset", "UTF8"], ["x-note", "Ab Cd"]]],
 ]
-LATIN_TYPES = [["text", "plain", []], ["text", "csv", [["charset", "iso-8859-1"], ["header", "present"]]]]
+# parameter values are case-sensitive and must come back as they went in
+LATIN_TYPES = [["text", "plain", []], ["text", "csv", [["charset", "iso-8859-1"], ["header", "present"]]],
+               ["text", "plain", [["charset", "ISO-8859-1"]]], ["text", "x-old", [["charset", "Latin-1"], ["v", "Ab"]]]]
 BIN_TYPES = [
     ["application", "octet-stream", []],
     ["image", "png", []],
     ["application", "x-thing", [["k", "v"]]],
     ["application", "vnd.x+json", [["a", "b; c=d"], ["x-y", ""]]],
     ["application", "x-gzip", [["charset", "binary"]]],
+    ["application", "x-upper", [["charset", "UTF-8"], ["name", "README.TXT"]]],
 ]
 
 
@@ -338,7 +356,15 @@ def split_bytes(rng, data, n):
     return out
 
 
+# chunk lists that repeat a chunk (equal bytes, same object): leading / trailing empties, the last chunk seen before
+REPEATS = [[b"", b"x", b""], [b"\n", b"a", b"\n"], [b"ab", b"ab", b"ab"], [b"", b""], [b"", b"", b"x"],
+           [b"x", b"", b""], [b"a", b"b", b"a"], [b"a", b"a"], [b"", b"ab", b"", b"ab", b""], [b"xy", b"z", b"xy", b"xy"]]
+
+
 def rand_detail(rng, name):
+    if rng.random() < 0.15:
+        ct = TEXT_TYPES[0] if name == 0 else rng.choice(TEXT_TYPES + LATIN_TYPES + BIN_TYPES)
+        return {"name": name, "ct": ct, "chunks": [list(c) for c in rng.choice(REPEATS)]}
     r = rng.random()
     n = rng.choice([0, 1, 1, 2, 2, 3, 4])
     if name == 0:           # a detail called 'reason' is read back as text by the converter's own summary
@@ -440,8 +466,8 @@ def fixed_cases():
         out.append({"ops": [["startRun"], ["time", 3], ["startTest", 1], ["time", 5],
                             ["outcome", kind, 1, det, None, None], ["stopTest", 1], ["stopRun"]]})
     # chunk shapes of one detail: 0, 1, 2, 3 chunks, empties first / last / only
-    for chunks in ([], [b""], [b"a"], [b"a", b"b"], [b"", b"a"], [b"a", b""], [b"", b""], [b"a", b"", b"c"],
-                   [b"a", b"b", b"c", b"d"]):
+    for chunks in [[], [b""], [b"a"], [b"a", b"b"], [b"", b"a"], [b"a", b""], [b"", b""], [b"a", b"", b"c"],
+                   [b"a", b"b", b"c", b"d"]] + REPEATS:
         out.append({"ops": [["startTest", 2], ["outcome", "addSuccess", 2, [d(2, octet, chunks)], None, None],
                             ["stopTest", 2]]})
     # several details, parameters, non-ASCII
@@ -451,6 +477,10 @@ def fixed_cases():
                           d(1, TEXT_TYPES[3], [b"Traceback\n", b"ValueError\n"])], None, None],
                         ["stopTest", 2], ["startTest", 3], ["outcome", "addSuccess", 3, None, None, None],
                         ["stopTest", 3], ["stopRun"]]})
+    # parameter values with upper-case letters (values are case-sensitive; names are lower-case in wf_ct)
+    for ct in (TEXT_TYPES[2], TEXT_TYPES[4], LATIN_TYPES[2], LATIN_TYPES[3], BIN_TYPES[5]):
+        out.append({"ops": [["startRun"], ["startTest", 1], ["outcome", "addFailure", 1, [d(2, ct, [b"A", b"b"])], None, None],
+                            ["stopTest", 1], ["stopRun"]]})
     # skip reasons
     for r in REASONS:
         out.append({"ops": [["startRun"], ["startTest", 1], ["outcome", "addSkip", 1, None, r, None], ["stopTest", 1],
@@ -531,7 +561,7 @@ def shrink(case):
 
 
 def distribution(cases):
-    d = {"tests": {}, "kinds": {}, "via": {"exc_info": 0, "details": 0, "neither": 0}, "details_per_test": {},
+    d = {"details_with_repeated_chunk": 0, "param_values_with_upper_case": 0, "tests": {}, "kinds": {}, "via": {"exc_info": 0, "details": 0, "neither": 0}, "details_per_test": {},
          "chunks_per_detail": {}, "empty_chunks": 0, "params_per_type": {}, "text_details": 0, "binary_details": 0,
          "skip_reasons": 0, "explicit_startTestRun": 0, "stopTestRun": 0, "time_calls": 0, "tags_calls": 0}
     for c in cases:
@@ -553,6 +583,9 @@ def distribution(cases):
                     k = min(len(det["chunks"]), 5)
                     d["chunks_per_detail"][k] = d["chunks_per_detail"].get(k, 0) + 1
                     d["empty_chunks"] += sum(1 for ch in det["chunks"] if not ch)
+                    cs = [bytes(ch) for ch in det["chunks"]]
+                    d["details_with_repeated_chunk"] += len(set(cs)) < len(cs)
+                    d["param_values_with_upper_case"] += any(v != v.lower() for _, v in det["ct"][2])
                     p = len(det["ct"][2])
                     d["params_per_type"][p] = d["params_per_type"].get(p, 0) + 1
                     if det["ct"][0] == "text":
